@@ -111,6 +111,7 @@ type enc struct {
 	callOrd  map[string]int
 	safeOrd  map[string]int
 	errs     []string
+	matchedCA map[*Clause]bool // call-site clauses that found their call site
 	inputs   []string // names of input constants (for model projection)
 	safetyProps []string
 	discover   bool
